@@ -14,7 +14,14 @@
                                 (finite: `decide` over all 2·2⁸ combinations IS the proof here).
   * `c19_pkce_honoured`, `c19_request_object_honoured`.
   * `c19_issuer_validation`   : `ValidateIssuer` accepts exactly the acceptable issuers, ∀ strings, ∀ DiscURL-parser oracles.
-  * `c19_dynamic_issuer`      : issuer-from-host construction refuses paths with query / fragment; produced scheme.
+  * `c19_dynamic_issuer`      : issuer-from-host / Forwarded construction refuses paths with query / fragment; produced scheme — over the
+                                REGENERATED `issuerFromForwardedOrHost` / `hostFromForwarded` (`issuerFromForwardedOrHost_ok`, `staticIssuer_ok`).
+  * `c19_document_per_request`, `c19_no_state_between_requests`, `c19_first_request_not_special` : over the regenerated request path of
+                                both routers, the response to a discovery request is the document built with issuer := issuerFromRequest(THIS
+                                request) and the configuration — in every sequence of requests.
+  * `c19_request_issuer`      : the regenerated strategies give a request exactly the issuer `C19.issuerOfRequest` entitles it to.
+  * `c19_visit_holds`, `c19_sequence_holds` : every visit of every sequence of requests satisfies `C19.monitorVisit` / `monitorSequence`.
+  * `serve_wiring_pinned`     : the regenerated wiring facts the hand-written composition `Disco.serve` / `discoveryRoute` / `issuerFn` stands for.
   * `c19_rp_rejects_foreign_issuer` : `client.Discover` returns a document only if its issuer is the one asked for (∀ transports).
 -/
 import OidcModel.Model.DiscoveryModel
@@ -283,10 +290,75 @@ theorem validateIssuerPath_iff (u : DiscURL) : (ValidateIssuerPath 0 u = .ok ())
 theorem isOk_iff (x : Go.R Unit) : x.isOk = true ↔ x = .ok () := by
   cases x <;> simp [Except.isOk, Except.toBool]
 
-/-- provider construction with a static issuer never lets an unacceptable issuer through -/
+/-! ### the regenerated issuer strategies (`StaticIssuer`, `issuerFromForwardedOrHost`, `hostFromForwarded`) -/
+
+/-- `StaticIssuer(iss)(insecure)` succeeds exactly when `ValidateIssuer` does, and then names `iss` for every request -/
+theorem staticIssuer_ok (parse : String → Go.R DiscURL) (iss : String) (insecure : Bool) (f : DiscReq → String)
+    (h : GenServe.StaticIssuer 0 parse iss insecure = .ok f) :
+    ValidateIssuer 0 parse iss insecure = .ok () ∧ ∀ r, f r = iss := by
+  unfold GenServe.StaticIssuer at h
+  cases hv : ValidateIssuer 0 parse iss insecure with
+  | error e => simp [hv] at h
+  | ok x =>
+    simp only [hv] at h
+    injection h with h
+    subst h
+    exact ⟨rfl, fun _ => rfl⟩
+
+theorem staticIssuer_isOk (parse : String → Go.R DiscURL) (iss : String) (insecure : Bool) :
+    (GenServe.StaticIssuer 0 parse iss insecure).isOk = (ValidateIssuer 0 parse iss insecure).isOk := by
+  unfold GenServe.StaticIssuer
+  cases hv : ValidateIssuer 0 parse iss insecure <;> simp [Except.isOk, Except.toBool]
+
+/-- the host `issuerFromForwardedOrHost` builds the issuer of a request from: what `hostFromForwarded` finds, else the Host line -/
+def effectiveHost (parseFwd : String → List String → Go.R (List String)) (headers : List String) (r : DiscReq) : String :=
+  if (GenServe.hostFromForwarded 0 parseFwd r headers).2 then (GenServe.hostFromForwarded 0 parseFwd r headers).1 else r.Host
+
+/-- `issuerFromForwardedOrHost(path, c)(insecure)` succeeds exactly when the path parses and carries neither query nor fragment, and the
+    function it returns is `dynamicIssuer(effective host of THIS request, path, insecure)` -/
+theorem issuerFromForwardedOrHost_ok (parse : String → Go.R DiscURL) (parseFwd : String → List String → Go.R (List String))
+    (path : String) (c : DiscIssuerConfig) (insecure : Bool) (f : DiscReq → String)
+    (h : GenServe.issuerFromForwardedOrHost 0 parse parseFwd path c insecure = .ok f) :
+    (∃ u, parse path = .ok u ∧ ValidateIssuerPath 0 u = .ok ()) ∧
+    ∀ r, f r = dynamicIssuer 0 (effectiveHost parseFwd c.headers r) path insecure := by
+  unfold GenServe.issuerFromForwardedOrHost at h
+  cases hp : parse path with
+  | error e => simp [hp] at h
+  | ok u =>
+    simp only [hp] at h
+    cases hv : ValidateIssuerPath 0 u with
+    | error e => simp [hv] at h
+    | ok x =>
+      simp only [hv] at h
+      injection h with h
+      subst h
+      refine ⟨⟨u, rfl, hv⟩, fun r => ?_⟩
+      unfold effectiveHost
+      cases h2 : (GenServe.hostFromForwarded 0 parseFwd r c.headers).2 <;> simp [h2]
+
+theorem issuerFromForwardedOrHost_isOk (parse : String → Go.R DiscURL) (parseFwd : String → List String → Go.R (List String))
+    (path : String) (c : DiscIssuerConfig) (insecure : Bool) :
+    (GenServe.issuerFromForwardedOrHost 0 parse parseFwd path c insecure).isOk =
+      (match parse path with | .error _ => false | .ok u => (ValidateIssuerPath 0 u).isOk) := by
+  unfold GenServe.issuerFromForwardedOrHost
+  cases hp : parse path with
+  | error e => rfl
+  | ok u => cases hv : ValidateIssuerPath 0 u <;> simp [hv, Except.isOk, Except.toBool]
+
+/-- no configured header: the Host line counts (`IssuerFromHost`) -/
+theorem hostFromForwarded_nil (parseFwd : String → List String → Go.R (List String)) (r : DiscReq) :
+    GenServe.hostFromForwarded 0 parseFwd r [] = ("", false) := rfl
+
+theorem constructIssuer_isOk (parse : String → Go.R DiscURL) (s : IssuerStrategy) (insecure : Bool) :
+    (constructIssuer parse s insecure).isOk = (issuerFn ⟨parse, fwdOracle⟩ s none insecure).isOk := by
+  unfold constructIssuer
+  cases issuerFn ⟨parse, fwdOracle⟩ s none insecure <;> rfl
+
+/-- provider construction with a static issuer (the regenerated `StaticIssuer`) never lets an unacceptable issuer through -/
 theorem c19_issuer_validation (parse : String → Go.R DiscURL) (issuer : String) (insecure : Bool) :
     monitorIssuer parse issuer insecure (constructIssuer parse (.static issuer) insecure).isOk = none := by
-  simp only [monitorIssuer, constructIssuer]
+  rw [constructIssuer_isOk]
+  simp only [monitorIssuer, issuerFn, staticIssuer_isOk]
   by_cases h : (ValidateIssuer 0 parse issuer insecure).isOk = true
   · simp [(validateIssuer_iff parse issuer insecure).mp ((isOk_iff _).mp h)]
   · simp [h]
@@ -313,32 +385,210 @@ theorem dynamicIssuer_scheme (host path : String) (insecure : Bool) :
   cases insecure <;> simp only [Bool.false_eq_true, if_false, if_true] <;> split <;>
     simp [Go.hasPrefix, HAdd.hAdd, String.toList_append]
 
-theorem dyn_aux (r : Go.R DiscURL) (insecure : Bool) (iss : String)
-    (hpre : Go.hasPrefix iss (if insecure then "http://" else "https://") = true) :
-    (let acc := (match r with | .error _ => (.error "ErrInvalidIssuerURL" : Go.R Unit) | .ok u => ValidateIssuerPath 0 u).isOk
-     if acc && (match r with | .error _ => true | .ok u => u.Fragment != "" || !u.Query.isEmpty) then some "bad-issuer-path-accepted"
-     else match (if acc then some iss else none) with
-       | some iss => if Go.hasPrefix iss "https://" || (insecure && Go.hasPrefix iss "http://") then none else some "insecure-issuer-produced"
-       | none => none) = none := by
-  cases r with
-  | error e => simp [Except.isOk, Except.toBool]
-  | ok u =>
-    simp only []
-    by_cases hv : (ValidateIssuerPath 0 u).isOk = true
-    · have h := (validateIssuerPath_iff u).mp ((isOk_iff _).mp hv)
-      cases insecure <;> simp_all [DiscURL.Query]
-    · simp [hv]
-
-/-- issuer from request host / Forwarded header: construction refuses a path with query or fragment, and the issuer
-    produced for any host uses http only under the insecure opt-in — ∀ paths, hosts, parser behaviours -/
+/-- issuer from request host / Forwarded header, over the REGENERATED `issuerFromForwardedOrHost` / `hostFromForwarded`: construction
+    refuses a path with query or fragment, and the issuer produced for any request uses http only under the insecure opt-in —
+    ∀ paths, hosts, forwarded hosts, parser behaviours -/
 theorem c19_dynamic_issuer (parse : String → Go.R DiscURL) (path : String) (fromFwd : Bool) (insecure : Bool)
     (host : String) (fwd : Option String) :
     let s : IssuerStrategy := if fromFwd then .fromForwarded path else .fromHost path
     let acc := (constructIssuer parse s insecure).isOk
-    monitorDynamicIssuer parse path insecure acc (if acc then some (requestIssuer s insecure host fwd) else none) = none := by
+    monitorDynamicIssuer parse path insecure acc (if acc then requestIssuer parse s insecure host fwd else none) = none := by
+  have key : ∀ c : DiscIssuerConfig,
+      (let acc := (GenServe.issuerFromForwardedOrHost 0 parse fwdOracle path c insecure).isOk
+       monitorDynamicIssuer parse path insecure acc
+         (if acc then applyIssuer (GenServe.issuerFromForwardedOrHost 0 parse fwdOracle path c insecure) (requestOf host fwd) else none)) = none := by
+    intro c
+    cases hf : GenServe.issuerFromForwardedOrHost 0 parse fwdOracle path c insecure with
+    | error e =>
+      simp [monitorDynamicIssuer, Except.isOk, Except.toBool]
+    | ok f =>
+      obtain ⟨⟨u, hp, hv⟩, hfr⟩ := issuerFromForwardedOrHost_ok parse fwdOracle path c insecure f hf
+      have h := (validateIssuerPath_iff u).mp hv
+      have hpre := dynamicIssuer_scheme (effectiveHost fwdOracle c.headers (requestOf host fwd)) path insecure
+      rw [← hfr] at hpre
+      cases insecure <;> simp_all [monitorDynamicIssuer, applyIssuer, Except.isOk, Except.toBool, DiscURL.Query]
   cases fromFwd
-  · exact dyn_aux (parse path) insecure _ (dynamicIssuer_scheme host path insecure)
-  · exact dyn_aux (parse path) insecure _ (dynamicIssuer_scheme (fwd.getD host) path insecure)
+  · simpa [constructIssuer_isOk, requestIssuer, issuerFn] using key _
+  · simpa [constructIssuer_isOk, requestIssuer, issuerFn] using key _
+
+/-! ### one request after another: the document is a function of THIS request only -/
+
+theorem issuerFromContext_withIssuer (ctx : DiscCtx) (x : String) :
+    GenServe.IssuerFromContext 0 (GenServe.ContextWithIssuer 0 ctx x) = x := by
+  simp [GenServe.IssuerFromContext, GenServe.ContextWithIssuer, DiscCtx.WithValue, DiscCtx.Value, DiscCtxVal.asString]
+
+/-- the second translation of the two document builders (with their context parameter) is the first one applied to
+    `IssuerFromContext(ctx)` -/
+theorem createDiscoveryConfig_ctx (ctx : DiscCtx) (c : Configuration) (st : OpStorage) :
+    GenServe.CreateDiscoveryConfig 0 ctx c st = Gen.CreateDiscoveryConfig 0 (GenServe.IssuerFromContext 0 ctx) c := rfl
+
+theorem createDiscoveryConfigV2_ctx (ctx : DiscCtx) (c : Configuration) (st : OpStorage) (eps : Endpoints) :
+    GenServe.createDiscoveryConfigV2 0 ctx c st eps = Gen.createDiscoveryConfigV2 0 (GenServe.IssuerFromContext 0 ctx) c eps := rfl
+
+/-- `setIssuerCtx` hands the next handler the request with the issuer of THIS request in its context -/
+theorem setIssuerCtx_eq (f : DiscReq → String) (w : DiscW) (r : DiscReq) (next : DiscHandler) :
+    GenServe.setIssuerCtx 0 ⟨f⟩ w r next = next.ServeHTTP w (r.WithContext (GenServe.ContextWithIssuer 0 r.Context (f r))) := rfl
+
+/-- **c19_document_per_request**: on both routers the response to a discovery request is exactly one document, and that document is
+    `CreateDiscoveryConfig` / `createDiscoveryConfigV2` with `issuer := issuerFromRequest(THIS request)` and the provider's
+    configuration — nothing else enters (the regenerated handlers are functions of the configuration, the writer and the request; a
+    handler that remembers an earlier request has no translation) -/
+theorem c19_document_per_request (i : Input) (f : DiscReq → String) (r : DiscReq) (hform : r.parseFormFails = false) :
+    serve f (discoveryRoute i) r = [.json (discovery { i with issuer := f r })] := by
+  unfold serve discoveryRoute discovery
+  cases hr : i.cfg.router
+  · simp [GenServe.IssuerInterceptor_Handler, GenServe.setIssuerCtx, GenServe.discoveryHandler, GenServe.opDiscover,
+      Hand.discMarshalJSON, createDiscoveryConfig_ctx, DiscReq.WithContext, DiscReq.Context, issuerFromContext_withIssuer]
+    rfl
+  · simp [GenServe.IssuerInterceptor_Handler, GenServe.setIssuerCtx, GenServe.simpleHandler, GenServe.LegacyServer_Discovery,
+      GenServe.Response_writeOut, Hand.discNewResponse, Hand.discMarshalJSON, createDiscoveryConfigV2_ctx, DiscReq.WithContext,
+      DiscReq.Context, DiscReq.ParseForm, hform, issuerFromContext_withIssuer]
+    rfl
+
+/-- whatever was asked before: in ANY sequence of requests to one provider, every response is the document of its own request -/
+theorem c19_no_state_between_requests (i : Input) (f : DiscReq → String) (rs : List DiscReq)
+    (hform : ∀ r ∈ rs, r.parseFormFails = false) :
+    rs.map (serve f (discoveryRoute i)) = rs.map (fun r => [.json (discovery { i with issuer := f r })]) :=
+  List.map_congr_left (fun r hr => c19_document_per_request i f r (hform r hr))
+
+/-- two requests with the same issuer get the same document; the first request of a provider's life is not special -/
+theorem c19_first_request_not_special (i : Input) (f : DiscReq → String) (first r : DiscReq)
+    (h1 : first.parseFormFails = false) (h2 : r.parseFormFails = false) :
+    (servedDoc (serve f (discoveryRoute i) r)).map (·.Issuer) = some (f r) ∧
+    (f first ≠ f r → servedDoc (serve f (discoveryRoute i) r) ≠ servedDoc (serve f (discoveryRoute i) first)) := by
+  rw [c19_document_per_request i f r h2, c19_document_per_request i f first h1]
+  refine ⟨by simp [servedDoc, c19_issuer_eq], fun hne heq => hne ?_⟩
+  simp only [servedDoc, Option.some.injEq] at heq
+  have := congrArg DiscoveryConfiguration.Issuer heq
+  simpa [c19_issuer_eq] using this.symm
+
+/-! ### the issuer a request is entitled to (Spec) = the issuer the regenerated strategy computes -/
+
+theorem len_pos_iff (s : String) : (decide ((Go.len s) > (0 : Int))) = (s != "") := by
+  by_cases h : s = ""
+  · subst h; simp [Go.len, HasLen.len]
+  · have h1 : s.utf8ByteSize ≠ 0 := fun h0 => h (String.utf8ByteSize_eq_zero_iff.mp h0)
+    have h2 : 0 < s.utf8ByteSize := by omega
+    have h3 : (s != "") = true := by simpa using h
+    simp [Go.len, HasLen.len, h2, h3]
+
+/-- `dynamicIssuer` is scheme://host + the path with the one leading slash it needs -/
+theorem dynamicIssuer_eq (host path : String) (insecure : Bool) :
+    dynamicIssuer 0 host path insecure = (if insecure then "http" else "https") ++ "://" ++ host ++ issuerPathSuffix path := by
+  unfold dynamicIssuer issuerPathSuffix
+  rw [len_pos_iff]
+  by_cases h0 : path = ""
+  · subst h0; cases insecure <;> simp [Go.hasPrefix, HAdd.hAdd]
+  · cases hp : Go.hasPrefix path "/" <;> cases insecure <;> simp [h0, HAdd.hAdd, String.append_assoc]
+
+/-- the forwarding headers of request `r` say what the sender of visit `v` put there (the oracle / request side of the tie;
+    the driver checks it by computing `hostFromForwarded` on the observed headers with the library's answers) -/
+def headersAgree (o : ServeOracles) (custom : Option (List String)) (v : Visit) (r : DiscReq) : Prop :=
+  r.Host = v.host ∧
+  ∀ p, v.strategy = .fromForwarded p →
+    GenServe.hostFromForwarded 0 o.parseFwd r (v.strategy.issuerConfig custom).headers = fwdResult v.fwdHost
+
+/-- for a provider that could be constructed, the issuer function it got names for every request exactly the issuer the
+    specification entitles that request to -/
+theorem c19_request_issuer (o : ServeOracles) (custom : Option (List String)) (insecure : Bool) (v : Visit) (r : DiscReq)
+    (f : DiscReq → String) (hf : issuerFn o v.strategy custom insecure = .ok f) (hh : headersAgree o custom v r) :
+    f r = issuerOfRequest insecure v := by
+  obtain ⟨hhost, hfwd⟩ := hh
+  cases hs : v.strategy with
+  | static iss =>
+    rw [hs] at hf
+    simp only [issuerFn] at hf
+    rw [(staticIssuer_ok _ _ _ _ hf).2 r]
+    simp [issuerOfRequest, hs]
+  | fromHost path =>
+    rw [hs] at hf
+    simp only [issuerFn] at hf
+    rw [(issuerFromForwardedOrHost_ok _ _ _ _ _ _ hf).2 r, dynamicIssuer_eq]
+    simp [issuerOfRequest, hs, effectiveHost, IssuerStrategy.issuerConfig, hostFromForwarded_nil, hhost]
+  | fromForwarded path =>
+    have h2 := hfwd path hs
+    rw [hs] at hf h2
+    simp only [issuerFn] at hf
+    rw [(issuerFromForwardedOrHost_ok _ _ _ _ _ _ hf).2 r, dynamicIssuer_eq]
+    cases hv : v.fwdHost <;> simp [issuerOfRequest, hs, effectiveHost, h2, hv, fwdResult, hhost]
+
+/-! ### every visit of every sequence satisfies the monitor -/
+
+theorem wellFormed_withIssuer (i : Input) (x : String) (hw : i.wellFormed) : ({ i with issuer := x } : Input).wellFormed := hw
+
+theorem fieldAddress_ok (i : Input) (hw : i.wellFormed) (f : Field) : fieldAddressOK i.cfg (discovery i) f = true := by
+  by_cases hf : i.cfg.router = .legacy ∧ f = .checkSession
+  · obtain ⟨⟨router, eps, flags, caps, insecure⟩, peps, iss⟩ := i
+    obtain ⟨hr, rfl⟩ := hf
+    simp only at hr
+    subst hr
+    simp [fieldAddressOK, Field.advertised, discovery, createDiscoveryConfigV2]
+  · have hf' : i.cfg.router = .legacy → f ≠ .checkSession := fun h1 h2 => hf ⟨h1, h2⟩
+    have hadv := advertised_eq i hw f hf'
+    have hd : (modelObs i).doc = discovery i := rfl
+    rw [hd] at hadv
+    unfold fieldAddressOK
+    simp only [hadv, absolute_cases]
+    cases hn : (f.configured i.cfg.endpoints).isNil <;> simp
+    by_cases hu : (f.configured i.cfg.endpoints).url = "" <;> simp [hu]
+
+theorem modelVisit_eq (i : Input) (f : DiscReq → String) (r : DiscReq) (kinds : List String) (hform : r.parseFormFails = false) :
+    modelVisit i f r kinds =
+      { status := 200, doc := discovery { i with issuer := f r }, tokenIssuers := kinds.map fun k => (k, f r) } := by
+  unfold modelVisit
+  rw [c19_document_per_request i f r hform]
+  simp [servedDoc, issuerFromContext_withIssuer]
+
+/-- **one visit**: for every configuration, every issuer strategy (with or without custom header names), every request — the
+    document served to the request names the issuer that request is entitled to, which is the issuer of the tokens issued through
+    it, and every advertised endpoint is the configured URL or relative to that issuer -/
+theorem c19_visit_holds (i : Input) (hw : i.wellFormed) (o : ServeOracles) (custom : Option (List String)) (v : Visit) (r : DiscReq)
+    (f : DiscReq → String) (kinds : List String)
+    (hf : issuerFn o v.strategy custom i.cfg.insecure = .ok f) (hh : headersAgree o custom v r) (hform : r.parseFormFails = false) :
+    monitorVisit i.cfg v (modelVisit i f r kinds) = none := by
+  rw [modelVisit_eq i f r kinds hform]
+  have hiss := c19_request_issuer o custom i.cfg.insecure v r f hf hh
+  have hdoc : (discovery { i with issuer := f r }).Issuer = f r := c19_issuer_eq _
+  have hfields : Field.all.find? (fun g => !fieldAddressOK i.cfg (discovery { i with issuer := f r }) g) = none := by
+    simp only [List.find?_eq_none]
+    intro g _
+    have := fieldAddress_ok { i with issuer := f r } (wellFormed_withIssuer i (f r) hw) g
+    simpa using this
+  have htok : (kinds.map fun k => (k, f r)).find? (fun ki => ki.2 != f r) = none := by
+    simp [List.find?_eq_none]
+  unfold monitorVisit
+  simp [hdoc, hiss.symm, hfields, htok]
+
+/-- **every sequence**: whatever hosts ask, in whatever order, however often — no visit of the sequence fails -/
+theorem c19_sequence_holds (i : Input) (hw : i.wellFormed) (o : ServeOracles) (custom : Option (List String)) (s : IssuerStrategy)
+    (f : DiscReq → String) (kinds : List String) (hf : issuerFn o s custom i.cfg.insecure = .ok f)
+    (visits : List (Visit × DiscReq))
+    (hv : ∀ vr ∈ visits, vr.1.strategy = s ∧ headersAgree o custom vr.1 vr.2 ∧ vr.2.parseFormFails = false) :
+    monitorSequence i.cfg (visits.map fun vr => (vr.1, modelVisit i f vr.2 kinds)) = none := by
+  induction visits with
+  | nil => rfl
+  | cons vr rest ih =>
+    obtain ⟨hs, hh, hform⟩ := hv vr (List.mem_cons_self)
+    have h1 := c19_visit_holds i hw o custom vr.1 vr.2 f kinds (hs ▸ hf) hh hform
+    have h2 := ih (fun x hx => hv x (List.mem_cons_of_mem _ hx))
+    simp [monitorSequence, h1, h2]
+
+/-! ### who serves the discovery route, and behind which middleware (regenerated facts, pinned) -/
+
+/-- `Disco.discoveryRoute` / `Disco.serve` / `Disco.issuerFn` are hand-written compositions of regenerated functions. The
+    expressions they stand for are read from the source on every run; if one of them changes this theorem fails and the
+    composition has to be looked at again. -/
+theorem serve_wiring_pinned :
+    GenServe.wiring_CreateRouter = ("discoveryHandler(o, o.Storage())",
+      ["cors.New(*opts).Handler", "cors.New(defaultCORSOptions).Handler", "intercept(o.IssuerFromRequest, interceptors...)"]) ∧
+    GenServe.wiring_webServer_createRouter = ("simpleHandler(s, s.server.Discovery)", []) ∧
+    GenServe.wiring_RegisterLegacyServer = ("", ["intercept(s.Provider().IssuerFromRequest)"]) ∧
+    GenServe.src_intercept = "{ issuerInterceptor := NewIssuerInterceptor(i) return func(handler http.Handler) http.Handler { for i := len(interceptors) - 1; i >= 0; i-- { handler = interceptors[i](handler) } return issuerInterceptor.Handler(handler) } }" ∧
+    GenServe.src_NewIssuerInterceptor = "{ return &IssuerInterceptor{ issuerFromRequest: issuerFromRequest, } }" ∧
+    GenServe.src_IssuerFromHost = "{ return issuerFromForwardedOrHost(path, new(issuerConfig)) }" ∧
+    GenServe.src_IssuerFromForwardedOrHost = "{ c := &issuerConfig{ headers: []string{http.CanonicalHeaderKey(\"forwarded\")}, } for _, opt := range opts { opt(c) } return issuerFromForwardedOrHost(path, c) }" ∧
+    GenServe.src_Provider_IssuerFromRequest = "{ return o.issuer(r) }" := by
+  exact ⟨rfl, rfl, rfl, rfl, rfl, rfl, rfl, rfl⟩
 
 /-! ### the RP's discovery client -/
 
@@ -411,5 +661,56 @@ example : Discover 0 (fun _ u _ => .ok u) (fun _ _ _ => .ok { Issuer := "https:/
 example : Discover 0 (fun _ u _ => .ok u) (fun _ _ _ => .ok { Issuer := "https://evil.example" }) "https://op.example" () [] =
     .error "ErrIssuerInvalid" := by rfl
 example : monitorDiscover "https://op.example" "https://evil.example" (some "https://evil.example") = some "foreign-issuer-accepted" := by decide
+
+/-! ### non-vacuity: sequences of requests -/
+
+def exOracles : ServeOracles :=
+  { urlParse := fun s => if s == "/oidc" || s == "" || s == "realm" then .ok {} else if s == "/x?y=1" then .ok { query := ["y"] } else .error "parse",
+    parseFwd := fun _ vs => match vs with
+      | ["for=192.0.2.1;host=\"pub.example\";proto=https"] => .ok ["pub.example"]
+      | ["for=192.0.2.1"] => .ok []
+      | [] => .ok []
+      | _ => .error "malformed" }
+
+def exReqA : DiscReq := { Host := "a.example" }
+def exReqB : DiscReq := { Host := "b.example:8443" }
+def exReqFwd : DiscReq := { Host := "internal.local", headers := [("Forwarded", ["for=192.0.2.1;host=\"pub.example\";proto=https"])] }
+def exReqBadFwd : DiscReq := { Host := "internal.local", headers := [("Forwarded", ["for=;;"])] }
+
+/-- the regenerated strategies on concrete requests: host, forwarded host, fallback on a malformed header, custom header names,
+    refused path -/
+example : applyIssuer (issuerFn exOracles (.fromHost "/oidc") none false) exReqA = some "https://a.example/oidc" := by decide
+example : applyIssuer (issuerFn exOracles (.fromHost "realm") none true) exReqB = some "http://b.example:8443/realm" := by decide
+example : applyIssuer (issuerFn exOracles (.fromForwarded "") none false) exReqFwd = some "https://pub.example" := by decide
+example : applyIssuer (issuerFn exOracles (.fromForwarded "") none false) exReqBadFwd = some "https://internal.local" := by decide
+example : applyIssuer (issuerFn exOracles (.fromForwarded "") (some ["X-Forwarded"]) false) exReqFwd = some "https://internal.local" := by decide
+example : applyIssuer (issuerFn exOracles (.fromHost "") none false) exReqFwd = some "https://internal.local" := by decide
+example : (issuerFn exOracles (.fromHost "/x?y=1") none false).isOk = false := by decide
+
+def exVisitA : Visit := { strategy := .fromHost "/oidc", host := "a.example" }
+def exVisitB : Visit := { strategy := .fromHost "/oidc", host := "b.example:8443" }
+def exHostFn : DiscReq → String := fun r => "https://" ++ r.Host ++ "/oidc"
+
+/-- the hypotheses of `c19_visit_holds` are satisfiable, and its conclusion can be computed on a concrete sequence a, b, a … -/
+example : headersAgree exOracles none exVisitA exReqA := ⟨rfl, fun p h => by simp [exVisitA] at h⟩
+example : applyIssuer (issuerFn exOracles (.fromHost "/oidc") none false) exReqB = some (exHostFn exReqB) := by decide
+example : monitorSequence exInput.cfg
+    [(exVisitA, modelVisit exInput exHostFn exReqA ["id", "at"]), (exVisitB, modelVisit exInput exHostFn exReqB ["id"]),
+     (exVisitA, modelVisit exInput exHostFn exReqA [])] = none := by decide
+example : (modelVisit exInput exHostFn exReqB ["id"]).doc.TokenEndpoint = "https://b.example:8443/oidc/oauth/token" := by decide
+/-- … and the monitor is not vacuous: a provider that keeps serving the document it built for the FIRST host (host a) is flagged at
+    the first visit of another host, with the position of that visit in the sequence; so are a token of another issuer and an
+    endpoint that is relative to another host's issuer -/
+example : monitorSequence exInput.cfg
+    [(exVisitA, modelVisit exInput exHostFn exReqA ["id"]), (exVisitB, { modelVisit exInput exHostFn exReqA [] with tokenIssuers := [("id", exHostFn exReqB)] })]
+    = some (1, "document-issuer-not-of-this-request") := by decide
+example : monitorVisit exInput.cfg exVisitB { modelVisit exInput exHostFn exReqB [] with tokenIssuers := [("id", exHostFn exReqB), ("at", exHostFn exReqA)] }
+    = some "issuer-differs-from-token-issuer:at" := by decide
+example : monitorVisit exInput.cfg exVisitB { modelVisit exInput exHostFn exReqB [] with
+    doc := { (modelVisit exInput exHostFn exReqB []).doc with UserinfoEndpoint := (modelVisit exInput exHostFn exReqA []).doc.UserinfoEndpoint } }
+    = some "endpoint:userinfo_endpoint" := by decide
+/-- a Server-router request whose form cannot be parsed gets an error, not a document (the hypothesis of `c19_document_per_request`) -/
+example : serve exHostFn (discoveryRoute { exInput with cfg := { exInput.cfg with router := .legacy } }) { exReqA with parseFormFails := true }
+    = [.error "ErrInvalidRequest"] := by decide
 
 end C19
